@@ -124,3 +124,93 @@ class ProgramOptionsSave(Contract):
         info = {'unit': self.name, 'file': self.tu, 'sha': tu.sha, 'cases': 1, 'lines': [None, None], 'options': len(table),
                 'handled_types': sorted(handled_n), 'skipped_names': sorted(skipped), 'extract_s': 0}
         return [ex], info
+
+
+class HDF5FileSources(Contract):
+    """HDF5File (U25, partial): every dataset is written from the quantity it is named after (C10).
+    Facts are read off the real AST: (dataset member, source accessor) pairs of the constructor's axis writes
+    and of append(const PhaseSpace&, t, AppendType)."""
+    name = 'vfps::HDF5File::append'
+    tu = 'src/IO/HDF5File.cpp'
+    tags = {'C10'}
+
+    # dataset member -> (accessor name, integer arguments) the statement of C10 asks for
+    APPEND_SOURCES = {
+        '_phaseSpace': ('getData', []), '_bunchProfile': ('getProjection', [0]), '_energyProfile': ('getProjection', [1]),
+        '_bunchLength': ('getBunchLength', []), '_energySpread': ('getEnergySpread', []),
+        '_bunchPosition': ('getMoment', [0, 0]), '_energyAverage': ('getMoment', [1, 0]), '_bunchPopulation': ('getBunchPopulation', []),
+    }
+    AXIS_SOURCES = {'_positionAxis': 0, '_energyAxis': 1}
+
+    @staticmethod
+    def _calls(n, name):
+        return [x for x in _walk(n) if x.get('kind') == 'CXXMemberCallExpr' and x['inner'][0].get('name') == name]
+
+    @staticmethod
+    def _ints(n):
+        return [int(x['value']) for x in _walk(n) if x.get('kind') == 'IntegerLiteral']
+
+    def custom_verify(self, scratch, tc):
+        tu = tc.get(self.tu)
+        ex = Exec(tu, None, 'HDF5File')
+        ex.default_tags = {'C10'}
+        st = State()
+        # ---- append(const PhaseSpace&, timeaxis_t, AppendType)
+        apps = [f for f in tu.funcs.get('vfps::HDF5File::append', []) if len(params(f)) == 3]
+        if len(apps) != 1:
+            raise ExtractionError('HDF5File::append(ps, t, at) not found')
+        decls = {}      # local variable (e.g. mean_q) -> initialiser
+        for x in _walk(apps[0]):
+            if x.get('kind') == 'VarDecl' and x.get('inner'):
+                decls[x['id']] = x
+        seen = {}
+        for call in _walk(apps[0]):
+            if call.get('kind') not in ('CallExpr', 'CXXMemberCallExpr'):
+                continue
+            c = call['inner'][0]
+            while c.get('kind') == 'ImplicitCastExpr':
+                c = c['inner'][0]
+            if c.get('referencedDecl', {}).get('name') != '_appendData' and c.get('name') != '_appendData':
+                continue
+            args = call['inner'][1:]
+            ds = [x.get('name') for x in _walk(args[0]) if x.get('kind') == 'MemberExpr']
+            if not ds:
+                continue
+            src = args[1]
+            # follow a local (auto mean_q = ps.getMoment(0,0); ... mean_q.origin())
+            for x in _walk(src):
+                if x.get('kind') == 'DeclRefExpr' and x.get('referencedDecl', {}).get('id') in decls:
+                    src = decls[x['referencedDecl']['id']]
+            acc = None
+            for nm in set(v[0] for v in self.APPEND_SOURCES.values()):
+                cs = self._calls(src, nm)
+                if cs:
+                    acc = (nm, self._ints(cs[0]))
+            seen[ds[0]] = acc
+        for ds, want in sorted(self.APPEND_SOURCES.items()):
+            got = seen.get(ds)
+            ok = got is not None and got[0] == want[0] and got[1][:len(want[1])] == want[1]
+            o = Obligation(f'HDF5File::append#source.{ds}', {'C10'}, [], z3.BoolVal(bool(ok)), 'postcondition', None,
+                           f'dataset {ds} must be appended from {want[0]}({",".join(map(str, want[1]))}); found {got}')
+            ex.obls.append(o)
+        # ---- constructor: axis datasets
+        ctors = tu.funcs.get('vfps::HDF5File::HDF5File', [])
+        if len(ctors) != 1:
+            raise ExtractionError('HDF5File constructor not found')
+        found = {}
+        for call in self._calls(ctors[0], 'write'):
+            recv = call['inner'][0]['inner'][0]
+            names = [x.get('name') for x in _walk(recv) if x.get('kind') == 'MemberExpr']
+            for ds in self.AXIS_SOURCES:
+                if ds in names:
+                    ga = self._calls(call, 'getAxis')
+                    found[ds] = self._ints(ga[0])[:1] if ga else None
+        for ds, want in sorted(self.AXIS_SOURCES.items()):
+            got = found.get(ds)
+            o = Obligation(f'HDF5File::HDF5File#axis.{ds}', {'C10'}, [], z3.BoolVal(got == [want]), 'postcondition', None,
+                           f'{ds} must hold the grid coordinates of axis {want}; written from getAxis({got})')
+            ex.obls.append(o)
+        ex.oblig(st, 'canary', z3.BoolVal(False), 'canary', set())
+        info = {'unit': 'vfps::HDF5File (constructor axis writes, append(ps,t,at))', 'file': self.tu, 'sha': tu.sha, 'cases': 1, 'lines': [None, None], 'extract_s': 0,
+                'note': 'AST facts only: which accessor feeds which dataset; the HDF5 library calls themselves are trusted'}
+        return [ex], info
